@@ -112,9 +112,11 @@ tcptran_pipe_stop(void *arg)
 	nni_aio_stop(&p->txaio);
 	nni_aio_stop(&p->negoaio);
 	nng_stream_stop(p->conn);
-	nni_mtx_lock(&ep->mtx);
-	nni_list_node_remove(&p->node);
-	nni_mtx_unlock(&ep->mtx);
+	if (ep != NULL) { // (NULL if the pipe never got started)
+		nni_mtx_lock(&ep->mtx);
+		nni_list_node_remove(&p->node);
+		nni_mtx_unlock(&ep->mtx);
+	}
 }
 
 static int
